@@ -59,6 +59,7 @@ type World struct {
 	rpcs    map[int]*rpcState
 	flags   map[string]bool
 	ids     map[int]int64
+	rawBuf  map[string][]byte
 	hands   map[int]*handState
 	allHands []*handState
 	nwait       int
